@@ -65,7 +65,18 @@ theorem ipMatch_cidr (ip net len : List Char) (a n l : Nat)
 theorem parseIPv4_lt (s : List Char) (a : Nat) (h : parseIPv4 s = some a) : a < 2 ^ 32 := by
   exact parseIPv4_lt' s a h
 
+/-- ipMatch on IPv6 text agrees with CIDR arithmetic on 128-bit numbers -/
+theorem ipMatch6_cidr (ip net len : List Char) (a n l : Nat)
+    (ha : parseIPv6 ip = some a) (hn : parseIPv6 net = some n) (hl : parsePrefixLen6 len = some l)
+    (hnoslash : '/' ∉ net ∧ '/' ∉ len) :
+    ipMatch6 ip (net ++ '/' :: len) = some (inBlock6 a n l) := by
+  unfold ipMatch6
+  simp only [ha, splitOnChar_append hnoslash.1, splitOnChar_notMem hnoslash.2, hn, hl, inBlock6]
+  rw [div_eq_block _ _ _ (Nat.pow_pos (by decide))]
+
 /-! ### non-vacuity -/
+example : parseIPv6 "2001:db8::1".toList = some 0x20010db8000000000000000000000001 := by decide
+example : ipMatch6 "2001:db8::1".toList "2001:db8::/32".toList = some true := by decide
 def exPat : Pat := { segs := [.lit "proxy".toList, .ph "id".toList, .lit "x".toList], wild := true }
 example : PatWF exPat = true := by decide
 example : render .colon exPat = "/proxy/:id/x/*".toList := by decide
